@@ -5,5 +5,6 @@ CONSTANTS
   PosOps = 1
 INVARIANTS
   ModelOK
+  TableSound
   Emit
 CHECK_DEADLOCK FALSE
